@@ -81,9 +81,14 @@ func (b *Bus) ResetLog() { b.Log = b.Log[:0] }
 func (b *Bus) rec(a Acc) {
 	b.Tick++
 	b.Hash = Mix64(b.Hash, uint64(a.Kind)<<24|uint64(a.Addr)<<8|uint64(a.Val))
+	if len(b.Log) >= 1<<16 {
+		// the log is one Step's history (a Step makes a handful of accesses); under Run nobody resets it -
+		// it must not grow with the length of the Run
+		b.Log = b.Log[:0]
+	}
 	b.Log = append(b.Log, a)
-	if a.Kind >= PI && b.KeepPorts {
-		b.PortLog = append(b.PortLog, a)
+	if a.Kind >= PI && b.KeepPorts && len(b.PortLog) < 1<<20 {
+		b.PortLog = append(b.PortLog, a) // (the first million port accesses; every world is cut off alike)
 	}
 	if b.OnAccess != nil {
 		b.OnAccess(b, a)
